@@ -11,7 +11,9 @@ use crate::codec::aead::CipherMethod;
 pub fn new_encoder(kind: CipherKind, key: &[u8], salt: &[u8]) -> Result<ChunkEncoder, InvalidLength> {
     let key = hkdfsha1(key, salt)?;
     let auth = new_auth(kind, &key);
-    Ok(ChunkEncoder::new(0xffff, auth))
+    // payload length of a chunk is capped at 0x3FFF by the AEAD-cipher specification (peers mask the upper two bits);
+    // the encoder's limit counts the encrypted length field, the payload and both tags
+    Ok(ChunkEncoder::new(0x3fff + 2 + 16 + 16, auth))
 }
 
 pub fn new_decoder(kind: CipherKind, key: &[u8], salt: &[u8]) -> Result<ChunkDecoder, InvalidLength> {
